@@ -4,7 +4,7 @@ from __future__ import annotations
 import ast
 from typing import Any, Dict, List, Optional, Tuple
 
-from .heap import BUILTIN_EXC, HObj, LoopRec, PathDead, State, Unsupported
+from .heap import BUILTIN_EXC, HObj, LoopRec, PathDead, State, TK, Unsupported
 from .load import ClassInfo, FuncInfo, ModuleInfo, NotConst, _binop, _cmpop, _dotted
 from .terms import C, FALSE, NONE, TRUE, Term, cval, fresh_uid, is_const, mk, show, sym
 
@@ -154,7 +154,7 @@ def ev(self, e: ast.AST, st: State) -> Term:
                 o.kv[_ck(cval(kk))] = vv
             else:
                 if o.exact:
-                    o.writes = [(C(k0), v0, st.ctx) for k0, v0 in o.kv.items()]
+                    o.writes = [(k0.term if hasattr(k0, 'term') else C(k0), v0, st.ctx) for k0, v0 in o.kv.items()]
                     o.kv = {}
                     o.exact = False
                 o.writes.append((kk, vv, st.ctx))
@@ -612,6 +612,8 @@ def do_subscript(self, base: Term, idx: Optional[Term], sl, st: State, node) -> 
                     raise PathDead()
             except TypeError:
                 pass
+    elif self.sym_bytes and o is not None and o.kind == "dict" and o.exact and TK(idx) in o.kv:
+        return o.kv[TK(idx)]
     elif idx.op == "tuple" and all(is_const(x) for x in idx.args[0]) and o is not None and o.kind == "dict" and o.exact:
         k = tuple(cval(x) for x in idx.args[0])
         if k in o.kv:
@@ -747,6 +749,12 @@ def compare(self, op: str, l: Term, r: Term, st: State, node=None) -> Term:
             return C((l is r) if op == "Is" else (l is not r))
     if op in ("In", "NotIn"):
         ro = self.obj(st, r)
+        if ro is not None and ro.kind == "dict" and ro.exact and self.sym_bytes and not is_const(l) and l.op not in ("phi",):
+            # a symbolic key: present iff this very term was stored; absent from an empty dictionary; otherwise undecided
+            if TK(l) in ro.kv:
+                return C(op == "In")
+            if not ro.kv:
+                return C(op != "In")
         if ro is not None and ro.kind == "dict" and ro.exact and is_const(l):
             try:
                 res = cval(l) in ro.kv
@@ -955,7 +963,7 @@ def _havoc_args(self, args, st):
         if o is not None and o.kind in ("list", "dict", "bytearray", "set"):
             if o.kind == "dict":
                 if o.exact:
-                    o.writes = [(C(k), v, o.created_ctx) for k, v in o.kv.items()]
+                    o.writes = [(k.term if hasattr(k, 'term') else C(k), v, o.created_ctx) for k, v in o.kv.items()]
                     o.kv = {}
                     o.exact = False
                 o.sure = set()
@@ -1096,7 +1104,7 @@ def iter_items(self, v: Term, st: State) -> Optional[List[Term]]:
         if o is not None and o.kind in ("list", "set", "bytearray") and o.exact and not o.is_gen:
             return list(o.items)
         if o is not None and o.kind == "dict" and o.exact:
-            return [self.lift(k) for k in o.kv]
+            return [k.term if isinstance(k, TK) else self.lift(k) for k in o.kv]
         return None
     if v.op == "iterview":
         kind, base = v.args[0], v.args[1]
@@ -1119,9 +1127,9 @@ def iter_items(self, v: Term, st: State) -> Optional[List[Term]]:
             o = self.obj(st, base)
             if o is not None and o.kind == "dict" and o.exact:
                 if kind == "items":
-                    return [mk("tuple", (self.lift(k), x)) for k, x in o.kv.items()]
+                    return [mk("tuple", (k.term if isinstance(k, TK) else self.lift(k), x)) for k, x in o.kv.items()]
                 if kind == "keys":
-                    return [self.lift(k) for k in o.kv]
+                    return [k.term if isinstance(k, TK) else self.lift(k) for k in o.kv]
                 return list(o.kv.values())
             if base.op == "static" and isinstance(self.statics[base.args[0]], dict):
                 d = self.statics[base.args[0]]
